@@ -80,8 +80,25 @@ type PacketEnd struct {
 	once   sync.Once
 	la, ra Addr
 	// Tap, if set, sees every datagram written at this end before the fault tape is applied.
-	Tap        func([]byte)
+	Tap func([]byte)
+	// FailMatch restricts FailWriteAt to the datagrams it accepts (set before use).
+	FailMatch  func([]byte) bool
 	failWrites atomic.Int32
+	failAt     atomic.Int32 // 1-based index of the write at this end that fails (0: none)
+	writes     atomic.Int32
+	fmu        sync.Mutex
+	failedAt   []time.Duration // link time of every failed write
+}
+
+// FailWriteAt makes the k-th write at this end (1-based) fail; with FailMatch set, the k-th write
+// whose datagram satisfies it.
+func (e *PacketEnd) FailWriteAt(k int) { e.failAt.Store(int32(k)) }
+
+// FailedWrites returns the link times of the writes that were made to fail.
+func (e *PacketEnd) FailedWrites() []time.Duration {
+	e.fmu.Lock()
+	defer e.fmu.Unlock()
+	return append([]time.Duration(nil), e.failedAt...)
 }
 
 // FailNextWrites makes the next n writes at this end fail with an error (nothing is sent).
@@ -250,8 +267,17 @@ func (e *PacketEnd) Write(b []byte) (int, error) {
 		return 0, net.ErrClosed
 	default:
 	}
-	if e.failWrites.Load() > 0 {
-		e.failWrites.Add(-1)
+	n := int32(0)
+	if e.FailMatch == nil || e.FailMatch(b) {
+		n = e.writes.Add(1)
+	}
+	if e.failWrites.Load() > 0 || (n > 0 && e.failAt.Load() == n) {
+		if e.failWrites.Load() > 0 {
+			e.failWrites.Add(-1)
+		}
+		e.fmu.Lock()
+		e.failedAt = append(e.failedAt, time.Since(e.link.start))
+		e.fmu.Unlock()
 		return 0, io.ErrShortWrite
 	}
 	data := append([]byte(nil), b...)
